@@ -80,8 +80,32 @@ def decoder_domain(rng, tier, pid, scale=1.0, sweep=True):
                 ("unhashable", b"}q\x00(K\x01N" + key + b"h\x00u.")]
     if sweep:
         dom += [("sweep", d) for d in G.stack_sweep()]
+    dom += [("builtin", d) for d in builtin_call_programs()]
+    r = rng.fork("cyc")
+    dom += [("cyclic", d) for d in G.cyclic_operand_programs() if sweep or r.below(8) == 0]
     dom = [(t, d) for (t, d) in dom if model_ok_input(d) or (t == "bomb" and len(d) <= 80000)]
     return dom, hist
+
+def builtin_call_programs():
+    """REDUCE (and NEWOBJ) of Python builtins a decoder might be tempted to interpret: they all stay symbolic Calls
+    except the two documented ones (bytearray, _codecs.encode); module names of both Python lines, under each
+    announced protocol, with the argument shapes CPython writes; plus one pickle holding two globals that differ
+    only in where the dot sits"""
+    out = [b"(cos.path\njoin\ncos\npath.join\nt.", b"\x80\x04(\x8c\x07os.path\x8c\x04join\x93\x8c\x02os\x8c\x09path.join\x93cos.path\njoin\nt."]
+    names = [b"complex", b"set", b"frozenset", b"long", b"int", b"float", b"str", b"unicode", b"bytes", b"list", b"tuple", b"dict",
+             b"bool", b"range", b"xrange", b"slice", b"object", b"bytearray"]
+    f1, f2 = b"G\x3f\xf0\x00\x00\x00\x00\x00\x00", b"G\x40\x00\x00\x00\x00\x00\x00\x00"
+    args = [f1 + f2 + b"\x86", b")", f1 + b"\x85", b"K\x01\x85", b"X\x01\x00\x00\x00a\x85", b"U\x01a\x85", b"C\x01a\x85", b"]K\x01a\x85",
+            b"K\x00K\x05K\x01\x87", b"(K\x01K\x02t", b"N"]
+    for mod in (b"__builtin__", b"builtins", b"copy_reg", b"collections"):
+        for nm in names:
+            g = b"c" + mod + b"\n" + nm + b"\n"
+            for a in args:
+                for pre in (b"", b"\x80\x02", b"\x80\x03"):
+                    out.append(pre + g + a + b"R.")
+            out.append(b"\x80\x02" + g + b")\x81.")
+            out.append(b"}" + g + f1 + f2 + b"\x86RNs.")          # as a dict key
+    return out
 
 def escape_programs():
     """the escape grammars of the two text decoders, exhaustively at the edges: backslash + every byte,
@@ -427,7 +451,12 @@ def c11(res, rng, tier):
             b"\x80\x03cbuiltins\nbytearray\nC\x02ab\x85R.", b"cbuiltins\nbytearray\nC\x02ab\x85R.",
             b"\x96\x0c\x00\x00\x00\x00\x00\x00\x00hello, world.", b"U\x08XXXXXXXX.", b"C\x05abcde.", b"T\x03\x00\x00\x00xyz.",
             b"\x8c\x04wxyz.", b"B\x02\x00\x00\x00pq.", b"\x96\x02\x00\x00\x00\x00\x00\x00\x00zz.", b"X\x03\x00\x00\x00abc.",
-            b"]q\x00K\x01a.", b"}q\x01K\x01K\x02s.", b"]\x94(K\x01K\x02e."]
+            b"]q\x00K\x01a.", b"}q\x01K\x01K\x02s.", b"]\x94(K\x01K\x02e.",
+            # operands that differ only in where the bytes are split between two fields: anything remembered across
+            # calls under a joined key confuses them
+            b"cos.path\njoin\n.", b"cos\npath.join\n.", b"ca\nb\n.", b"c\na.b\n.", b"ca.b\n\n.",
+            b"\x80\x04\x8c\x07os.path\x8c\x04join\x93.", b"\x80\x04\x8c\x02os\x8c\x09path.join\x93.",
+            b"cos.path\njoin\n)R.", b"cos\npath.join\n)R.", b"Pos.path join\n.", b"Pos.path\n.", b"S'os.path'\n."]
     # text lines longer than bufio's 4096-byte buffer (readLine's slow path keeps per-Decoder state)
     longs = [b"S'" + b"a" * 5000 + b"'\n.", b"V" + b"b" * 6000 + b"\n.", b"I" + b"1" * 4200 + b"\n.", b"L" + b"7" * 4300 + b"L\n.",
              b"c" + b"m" * 4100 + b"\n" + b"n" * 4200 + b"\n.", b"P" + b"p" * 5000 + b"\n.", b"\x80\x02V" + b"\\u00e9" * 900 + b"\n."]
